@@ -842,7 +842,53 @@ fn judge(property: &str, wl: &Workload, refs: &[Obs], st: &CrashState, ev: &Even
         }
     };
     let obs = observe_db(&db, wl);
+    // ---- C02, kill images only: life goes on after recovery.  One more acknowledged write on
+    // the recovered database (WAL is off after a reopen), a clean close and a second reopen must
+    // show that write: recovery must have consumed the old log exactly once.
+    let mut second_life: Option<(String, i64, i64)> = None;
+    if property == "C02" && st.model == "kill" {
+        'pick: for (t, _keys, _idx) in &wl.tables {
+            if let Ok(m) = &obs[*t].scan {
+                for (k, row) in m {
+                    if let Some(V::Int(a)) = row.get(1) {
+                        let newv = a + 7000;
+                        let r = exec(&db, &format!("UPDATE {t} SET a = {newv} WHERE id = {k}"));
+                        if matches!(r, Res::Affected(1, _)) {
+                            second_life = Some((t.to_string(), *k, newv));
+                        }
+                        break 'pick;
+                    }
+                }
+            }
+        }
+    }
     let _ = vcore::catch(move || drop(db));
+    if let Some((t, k, newv)) = &second_life {
+        match vcore::catch(|| turdb::Database::open(dir).map_err(|e| format!("{e:#}"))) {
+            Ok(Ok(db2)) => {
+                let got = res_rows(exec(&db2, &format!("SELECT * FROM {t} WHERE id = {k}")));
+                let ok = matches!(&got, Ok(rows) if rows.len() == 1 && rows[0].get(1) == Some(&V::Int(*newv)));
+                // scan as well (the lookup goes through the index)
+                let scan = res_rows(exec(&db2, &format!("SELECT * FROM {t}")));
+                let ok_scan = matches!(&scan, Ok(rows) if rows.iter().any(|r| r.first() == Some(&V::Int(*k)) && r.get(1) == Some(&V::Int(*newv))));
+                let _ = vcore::catch(move || drop(db2));
+                if !ok_scan {
+                    v.fire("C02", "write-after-recovery-lost-at-next-reopen", &format!("{t} row {k} has a = {newv} after clean close + reopen"), &format!("lookup {:?}, scan {:?}", got.as_ref().map(|r| refmodel::val::show_rows(r)), scan.as_ref().map(|r| refmodel::val::show_rows(r))));
+                } else if !ok {
+                    v.rep.count("second_life_lookup_differs_from_scan", 1);
+                }
+                v.rep.count("second_life_checks", 1);
+            }
+            other => {
+                let msg = match other {
+                    Ok(Err(e)) => format!("Err: {e}"),
+                    Err(p) => format!("PANIC: {p}"),
+                    Ok(Ok(_)) => unreachable!(),
+                };
+                v.fire("C02", "second-reopen-after-recovery", "Database::open succeeds again after recovery + one write + clean close", &msg);
+            }
+        }
+    }
     let a = ev.acked;
     let inflight = ev.in_flight.map(|i| &wl.units[i]);
     let before = &refs[a];
